@@ -116,6 +116,7 @@ class UBody:
         self.names = body.param_names()
         fl = body.file.replace("\\", "/")
         self.generic_layer = fl.endswith(("src/ops.rs", "src/sort.rs", "src/translate.rs", "src/copy.rs"))
+        self.body_file = fl
 
     def pkey(self, p):
         ty = self.b["locals"][p["local"]]
@@ -425,6 +426,12 @@ class UBody:
                                 changed |= self.setu(dk, au0, "range adaptor")
                             elif name in ("next", "next_back") :
                                 changed |= self.setu((dk[0], dk[1] + (0,)), au0[6:], "range item")
+                    # u9: a raw pointer into the row-major buffer is moved by cell or column quantities (the distance between rows
+                    # is a column count), and the flat buffer is rotated / drained by cells: never by a ROW quantity
+                    if len(t["args"]) == 2 and (re.match(r"^core::ptr::(mut_ptr|const_ptr)::<impl \*(mut|const) T>::(add|sub|offset|wrapping_add|wrapping_sub)$", fn["path"]) or
+                                                (fn["path"] in ("core::slice::<impl [T]>::rotate_left", "core::slice::<impl [T]>::rotate_right") and self.body_file.endswith("src/toodee.rs"))):
+                        if self.op_unit(t["args"][1]) == ROW:
+                            self.err("u9", "%s(ROW)" % name, "the flat row-major buffer is stepped / rotated by a ROW quantity: %s(%s) - consecutive rows are a column count apart" % (name, self.sh(t["args"][1])), t["span"])
                     # u7: a Coordinate is (col, row); ordering two of them lexicographically (tuple <, <=, >, >=, cmp) compares
                     # the column first and the row only on ties - never what a bounds / direction decision needs
                     if name in ("lt", "le", "gt", "ge", "cmp", "partial_cmp", "min", "max") and re.search(r"\(usize, usize\)", " ".join(fn.get("args", []))) \
